@@ -623,8 +623,9 @@ class PropGen:
     """Scoping-valid, type-correct properties over random schemas (one schema per topic)."""
 
     def __init__(self, rng, maxdepth=3, kw_names=0.0, max_width=3, pred_prob=0.7, alias_prob=0.6,
-                 avoid=(), bias='plain', topics=None, expose_disj_aliases=0.5):
+                 avoid=(), bias='plain', topics=None, expose_disj_aliases=0.5, const_preds=0.0):
         self.expose_disj_aliases = expose_disj_aliases
+        self.const_preds = const_preds  # probability that an event carries a constant predicate ({False}, {True}, ...)
         self.rng = rng
         self.maxdepth = maxdepth
         self.kw_names = kw_names
@@ -698,6 +699,9 @@ class PropGen:
                     if alias is not None and r.random() < 0.3:
                         # write some own-field references through the alias: t as A {@A.f ...}
                         pred = _via_alias(pred, alias, r)
+                if self.const_preds and r.random() < self.const_preds:
+                    pred = pick(r, (A.boolean(False), A.boolean(False), A.boolean(True), A.not_(A.boolean(True)),
+                                    A.not_(A.boolean(False))))
                 alts.append(('ev', topic, alias, pred))
                 if alias is not None:
                     mine[alias] = sch
